@@ -8,6 +8,7 @@ from ..cfg import CFG, forward
 from ..model import AnalysisError, unparse
 from ..report import RuleResult
 from .c10 import _handle_expr, _mentions
+from ..roles import canon, writer_roles
 
 CATCHES = {"KeyError", "Exception", "BaseException", "LookupError"}
 
@@ -132,9 +133,12 @@ def rule_guard(ctx) -> RuleResult:
                     res.inst(f"H5Reader.{name}:{x.lineno} {base}[{key}] dominated by `{key} in {base}`", nontrivial=True)
                     continue
                 known = [f[2] for f in IN.get(node, frozenset()) if len(f) == 3 and f[0] == "==" and f[1] == key]
-                flat = key == "entity_type" and base.endswith("[name]") and all(k in ("Data", "Groups", "Objects", "Types") for k in known)
+                # locals by role: the project-group name is the local bound from list(<file>)[0]
+                roles_ = writer_roles(fn.node)
+                key_c, base_c = canon(x.slice, roles_), canon(x.value, roles_)
+                flat = key == "entity_type" and base_c.endswith("[base]") and all(k in ("Data", "Groups", "Objects", "Types") for k in known)
                 mandatory = (
-                    (key in ("name", "name[0]") and base in tainted)  # project group
+                    (key_c in ("base", "base[0]") and base in tainted)  # project group
                     or flat  # flat container chosen by kind (not the optional Root link)
                     or (name == "fetch_type")  # a missing type node may raise (mandatory item)
                 )
@@ -160,7 +164,10 @@ def rule_guard(ctx) -> RuleResult:
         res.find("Workspace", "fetch_or_create_root", "no branch rebuilding the root when the Root link is missing", fr.where,
                  "a file without the (optional) Root link cannot be opened")
     le = p.func("Workspace.load_entity")
-    ok = any(isinstance(n, ast.If) and unparse(n.test) == "attributes is None" and any(isinstance(s, ast.Return) for s in n.body) for n in ast.walk(le.node))
+    from ..roles import bound_from
+    attrs_l = set(bound_from(le.node, lambda e: "fetch_attributes" in unparse(e)))
+    ok = any(isinstance(n, ast.If) and isinstance(n.test, ast.Compare) and isinstance(n.test.left, ast.Name) and n.test.left.id in attrs_l and unparse(n.test).endswith(" is None")
+             and any(isinstance(s, ast.Return) for s in n.body) for n in ast.walk(le.node))
     res.inst("Workspace.load_entity: missing node -> None (entity left out)", nontrivial=True, ok=ok)
     if not ok:
         res.find("Workspace", "load_entity", "no `attributes is None` early return", le.where,
